@@ -73,6 +73,9 @@ def expand(body, e, depth=0):
         ds = body.defs.get(e[1], [])
         if len(ds) == 1 and not body.defs.get((e[1], "partial")):
             ie = body.init_expr(e[1])
+            if e[1] in body.mut_borrowed and (ie[0] in ("const", "agg", "str") or (ie[0] == "call" and not ie[2])):
+                # a mutable accumulator (`let mut v = Vec::new()`): its identity matters, not its initial value
+                return e
             if ie != e:
                 return expand(body, ie, d)
         return e
@@ -227,3 +230,78 @@ def edge_targets(edges):
 def call_args_render(body, site):
     e = body.site_expr(site)
     return [render(a) for a in e[2]] if e[0] == "call" else []
+
+
+# ---------------------------------------------------------------------------- mesh bookkeeping sites (C28, C29)
+MESH_ADD = re.compile(r"(BTreeSet::insert|BTreeSet as std::iter::Extend>::extend|BTreeSet::append|HashMap::insert)$")
+MESH_DEL = re.compile(r"(BTreeSet::(remove|retain|clear|take|pop_first|pop_last|split_off|extract_if)|"
+                      r"HashMap::(remove|remove_entry|clear|retain|drain|extract_if))$")
+
+
+def field_derived(body, e, field, owner_pat=r"behaviour::Behaviour"):
+    """expanded expression reads field `field` of the behaviour (directly or through a `self.field` upvar)"""
+    x = expand(body, e)
+    for s in mir.walk(x):
+        if s[0] == "field" and s[2] == field and (s[3] is None or re.search(owner_pat, s[3] or "")):
+            return True
+        if s[0] == "upvar" and re.sub(r"^\*+", "", s[1]) == "self." + field:
+            return True
+    return False
+
+
+def mesh_sites(body, rx):
+    """call sites whose callee matches rx and whose receiver (arg 0) is derived from `self.mesh`"""
+    out = []
+    for s in body.call_sites():
+        name = strip_generics(body.call_name(s.term))
+        if not rx.search(name):
+            continue
+        e = body.site_expr(s)
+        if e[2] and field_derived(body, e[2][0], "mesh"):
+            out.append(s)
+    return out
+
+
+def vec_elems(body, e):
+    """Elements of a `vec![a, b]` literal (lowered to box_new_uninit + array write + into_vec); None otherwise."""
+    for c in calls(e, r"box_assume_init_into_vec_unsafe$"):
+        a = c[2][0]
+        if a[0] == "local":
+            for d in body.defs.get((a[1], "partial"), []):
+                if d[0] == "stmt":
+                    r = body.rvalue_expr(d[3])
+                    if r[0] == "agg" and r[1] == "array":
+                        return [x for _, x in r[4]]
+    return None
+
+
+def src_calls(e, pat=r"behaviour::get_random_peers(_dynamic)?$|HashMap::remove_entry$"):
+    """blocks of the peer-selection calls an expression's elements come from"""
+    return {c[3] for c in calls(e, pat)}
+
+
+def loop_of(body, head_bb):
+    """blocks of the natural loop with header head_bb (blocks that can reach the header again without leaving)"""
+    some = [t for t in body.succ[head_bb]]
+    fwd = body.reachable(some, stop_nodes=[head_bb])
+    # blocks from which head is reachable
+    back = set()
+    for b in fwd:
+        if head_bb in body.reachable([b]):
+            back.add(b)
+    return back | {head_bb}
+
+
+def some_edge_targets(body, head_bb):
+    """targets of the `Some` edge of the switch on the result of the Iterator::next call in head_bb"""
+    out = []
+    for bi in sorted(body.live):
+        info = body.switch_info(bi)
+        if not info:
+            continue
+        cond = info[0]
+        if cond[0] == "discr" and cond[1][0] == "call" and cond[1][3] == head_bb:
+            for tgt, ls in info[1].items():
+                if "Some" in ls:
+                    out.append(tgt)
+    return out
